@@ -187,10 +187,10 @@ def compare(case, io, mo):
         coef_m, pred_m = C.tofloat(mo[0]), C.tofloat(mo[1])
         sc = max(1.0, max(abs(v) for v in coef_m))
         for x, y in zip(r["coef"], coef_m):
-            if abs(x - y) > 1e-6 * sc:
+            if not (abs(x - y) <= 1e-6 * sc):
                 return f"diff:coef {x} vs {y}"
         for x, y in zip(r["pred"], pred_m):
-            if abs(x - y) > 1e-6 * max(1.0, abs(y)):
+            if not (abs(x - y) <= 1e-6 * max(1.0, abs(y))):
                 return f"diff:prediction {x} vs {y}"
         return "ok"
     which = case["args"][0]
@@ -207,7 +207,7 @@ def compare(case, io, mo):
         if cond > 1e9:
             return "amb"
         sc = max(1.0, float(np.max(np.abs(pm))))
-        if np.max(np.abs(pm - pi)) > 1e-13 * cond * sc + 1e-9 * sc:
+        if not (np.max(np.abs(pm - pi)) <= 1e-13 * cond * sc + 1e-9 * sc):
             return f"diff:predictions at the data differ from the exact solution of the same system by {np.max(np.abs(pm - pi))} (cond {cond:.1e})"
         return "ok"
     if which == "knn":
@@ -231,11 +231,11 @@ def oracle(case, io):
         cb = combos(deg)
         sc = max(1.0, max(abs(c) for c in coef))
         for k, (x, y) in enumerate(zip(r["coef"], coef)):
-            if abs(x - y) > 1e-6 * sc:
+            if not (abs(x - y) <= 1e-6 * sc):
                 return f"Trend({deg}) fitted to a polynomial of degree <= {deg} returned coefficient {k} = {x}, polynomial has {y}"
         for x, qx, qy in zip(r["pred"], qe, qn):
             v = float(sum(C.fq(c) * C.fq(qx) ** i * C.fq(qy) ** j for c, (i, j) in zip(coef, cb)))
-            if abs(x - v) > 1e-6 * max(1.0, abs(v)):
+            if not (abs(x - v) <= 1e-6 * max(1.0, abs(v))):
                 return f"Trend({deg}) does not reproduce the polynomial away from the data: {x} vs {v} at ({qx}, {qy})"
         return None
     which, es, ns, shape2d, data, params = a
